@@ -131,6 +131,10 @@ func (C20) Execute(sc *core.Scenario, keepLog bool) *core.Result {
 					if a.Arg(2)%5 == 1 {
 						opts.BigBody = 2000
 					}
+					if a.Arg(4)%4 == 0 {
+						opts.BadEncoding = true // a body that does not decode (no content hash can be computed)
+						e.St.Probes["append_undecodable_body"]++
+					}
 					msg = e.NewMessage(a.Arg(1), opts)
 					sent = append(sent, msg)
 				}
